@@ -39,8 +39,8 @@ var soakNoCancel bool
 
 type soakStats struct {
 	calls, qfInv, lateEligible, cancelled, timedOut, oversize, never atomic.Int64
-	misattributed                                                     atomic.Int64
-	firstBad                                                          atomic.Pointer[string]
+	misattributed                                                    atomic.Int64
+	firstBad                                                         atomic.Pointer[string]
 }
 
 func (s *soakStats) bad(msg string) {
@@ -206,6 +206,9 @@ func (s *soak) oneCall(rng *rand.Rand) {
 	if soakNoCancel {
 		sw = 5
 	}
+	if pad >= 64<<10 && !IsPN(m) { // (a per-node function replaces the payload, so those requests are sent and may legitimately wait)
+		sw = 6 // oversized: the write itself fails; keep the context alive for ever (context.Background)
+	}
 	switch sw {
 	case 0:
 		cancel() // already ended
@@ -219,13 +222,18 @@ func (s *soak) oneCall(rng *rand.Rand) {
 		ctx, c2 = context.WithTimeout(ctx, time.Duration(200+rng.Intn(4000))*time.Microsecond)
 		defer c2()
 		st.timedOut.Add(1)
+	case 6:
 	default:
 		// bounded by a generous deadline so that calls on never-answering nodes end
 		var c2 context.CancelFunc
 		ctx, c2 = context.WithTimeout(ctx, 40*time.Millisecond)
 		defer c2()
 	}
-	defer cancel()
+	if sw != 6 {
+		defer cancel()
+	} else {
+		_ = cancel // never cancelled: nothing may linger because of that
+	}
 	st.calls.Add(1)
 	node := ix[rng.Intn(len(ix))]
 	var co []gorums.CallOption
@@ -248,6 +256,7 @@ func (s *soak) oneCall(rng *rand.Rand) {
 		cfg.MultiPN(ctx, req, f, co...)
 	case strings.HasPrefix(m, "QC"):
 		o := CallQC(cfg, m, ctx, req, f)
+		s.checkErrText(m, tok, o.Err, len(want), false)
 		if o.Err == nil && o.Rep != nil && o.Rep.GetCall() != tok {
 			st.bad(fmt.Sprintf("%s call %d returned the value of call %d", m, tok, o.Rep.GetCall()))
 		}
@@ -256,12 +265,34 @@ func (s *soak) oneCall(rng *rand.Rand) {
 		}
 	case strings.HasPrefix(m, "Async"):
 		o := StartAsync(cfg, m, ctx, req, f).Get()
+		s.checkErrText(m, tok, o.Err, len(want), false)
 		if o.Err == nil && o.Rep != nil && o.Rep.GetCall() != tok {
 			st.bad(fmt.Sprintf("%s call %d returned the value of call %d", m, tok, o.Rep.GetCall()))
 		}
 	default:
 		c := StartCorr(cfg, m, ctx, req, f)
 		<-c.Done()
+		_, _, cerr := c.Raw()
+		s.checkErrText(m, tok, cerr, len(want), stream)
+	}
+}
+
+// checkErrText applies the at-most-once-per-node rule to a quorum call error.
+func (s *soak) checkErrText(m string, tok uint64, err error, targeted int, stream bool) {
+	if err == nil {
+		return
+	}
+	pe, ok := parseQCErr(err.Error())
+	if !ok {
+		return
+	}
+	for id, lines := range pe.Nodes {
+		if len(lines) > 1 && !stream {
+			s.st.bad(fmt.Sprintf("%s call %d: node %d contributed %d errors to one call: %v", m, tok, id, len(lines), lines))
+		}
+	}
+	if !stream && pe.Errors+pe.Replies > targeted {
+		s.st.bad(fmt.Sprintf("%s call %d: errors %d + replies %d exceed the %d targeted nodes", m, tok, pe.Errors, pe.Replies, targeted))
 	}
 }
 
@@ -362,7 +393,7 @@ func RunSoakAttribution(e *Env) {
 			continue
 		}
 		o := soakOpts{N: 5 + rng.Intn(5), Configs: 6 + rng.Intn(15), Workers: []int{8, 16, 32, 64}[rng.Intn(4)], CallsPerWorker: e.Pick(60, 250), Buffer: []uint{0, 1, 16}[rng.Intn(3)],
-			MaxDelayMs: []int{2, 8, 20}[rng.Intn(3)], NeverPct: []int{0, 2, 5}[rng.Intn(3)]}
+			MaxDelayMs: []int{2, 8, 20}[rng.Intn(3)], NeverPct: []int{0, 2, 5}[rng.Intn(3)], Restarts: []int{0, 0, 4}[rng.Intn(3)], Oversize: i%2 == 1}
 		s, err := newSoak(e, o, rng.Int63())
 		if err != nil {
 			R.Inconc("soak setup: " + err.Error())
@@ -391,6 +422,8 @@ func RunSoakAttribution(e *Env) {
 		R.Count("calls_cancelled", st.cancelled.Load())
 		R.Count("calls_timed_out", st.timedOut.Load())
 		R.Count("handlers_never_answering_until_teardown", st.never.Load())
+		R.Count("calls_oversized(write fails, stream aborted)", st.oversize.Load())
+		R.Count("server_restarts", int64(o.Restarts))
 		R.Sample(map[string]any{"soak": o, "calls": st.calls.Load(), "qf_invocations": st.qfInv.Load()})
 		s.cl.Close()
 	}
@@ -451,7 +484,8 @@ func RunResidue(e *Env) {
 						_ = per
 					}
 				}
-			case <-time.After(4 * time.Minute):
+			}
+			if time.Since(t.Start) > 4*time.Minute {
 				running = false
 			}
 		}
